@@ -52,6 +52,15 @@ FwdProgV(e) ==
                                                          iopt == [x \in DOMAIN i |-> IF i[x].k \in {"var", "vkw"} THEN i[x] ELSE [i[x] EXCEPT !.d = TRUE]]
                                                      IN ~sh.dup /\ Accepts(iopt, [np |-> sh.np, kw |-> sh.kw]), "C04_PartialRejectsMoreThanSurplus")
         ELSE {})
+  (* C06: discovery agrees with the equivalent explicit declaration (real vs real); where the declaration itself cannot be *)
+  (* honoured (ValueError) or nothing is forwarded, the plain signature is reported                                        *)
+  \cup (IF e.agree = "none" THEN {}
+        ELSE IF e.declared.tag = "sig" /\ ((fl.uva /\ HasVar(o)) \/ (fl.uvk /\ HasVkw(o))) THEN
+               Clause(rep.tag # "sig" \/ rep.ps # e.declared.ps, "C06_DiscoveredParamsDifferFromDeclared")
+               \cup Clause(e.agree = "all" /\ rep.tag = "sig" /\ rep.ps = e.declared.ps
+                             /\ (rep.src # e.declared.src \/ rep.depth # e.declared.depth), "C06_DiscoveredProvenanceDiffersFromDeclared")
+        ELSE Clause(rep.tag # "sig" \/ e.plain.tag # "sig" \/ rep.ps # e.plain.ps, "C06_FallbackIsNotPlainSignature"))
+  \cup Clause(e.auto /\ rep.tag # "sig", "C07_RetrievalRaised")
   \cup Clause(e.other_exc # <<>>, "HARNESS_UnexpectedException")
   \cup Clause(~complete, "HARNESS_CallSetIncomplete")
   \cup Clause(\E x \in DOMAIN e.others : e.others[x].tag # rep.tag \/ (rep.tag = "sig" /\ e.others[x].ps # rep.ps), "C04_RoutesDisagree")
